@@ -166,7 +166,7 @@ CHECKS = {
         "feasible decision sequences over ANY variable sequence = independent sets with the same weight, union merge covers and covering is a simulation, the positive-weights rough bound is admissible and monotone, long arcs are neutral, the dynamic order picks only undecided vertices and stops when all states are empty; "
         "tied to the example's own source (compiled into the harness, instances through its own parser) by differential runs, plus library-vs-model-optimum runs. "
         "For the other ten examples there is no Coq proof that their models are well formed: specification + differential test. "
-        "Three defects were repaired (knapsack rough bound twice, misp rough bound), the others are recorded as known findings.",
+        "Four defects were repaired (knapsack rough bound twice, misp rough bound, the overflow of alp / psp / sop on infeasible instances), the others are recorded as known findings.",
    note=TB + "exdriver.ml contains independent parsers of the twelve input formats (trusted glue).",
    technique="independent Gallina enumeration specs (extracted) as oracle for the example binaries"),
 }
